@@ -239,7 +239,9 @@ CLAIMS['C17'] = {
             'sum, next matrix cells and their rank 0 - the rule that exposed fixed defect F19 - matrix handed from tree to tree); '
             'no entropy or uninitialised buffer in get_likelihood; sample() schema (rows, columns, clipped probabilities, rank-0 '
             'stores - F18); D6: parents[0] of an edge is the parent that owns its L node - the construction site orders the parents '
-            'like the (sorted) conditioned pair and Edge.get_likelihood pairs L with parents[0] (the clause behind fixed defect F23). '
+            'like the (sorted) conditioned pair and Edge.get_likelihood pairs L with parents[0] (the clause behind fixed defect F23); '
+            'every path of Tree.fit that builds edges also attaches their h-functions; functions reached only from sample / get_likelihood / '
+            'to_dict do not edit containers of the fitted trees in place. '
             'Equality with the pair-copula decomposition and the law of samples are not decided.',
     'note': NOTE,
     'technique': 'accessor/sibling agreement, ownership convention of parent edges, rank-kind and length-kind abstract interpretation, '
